@@ -47,6 +47,22 @@ Example C05_within_mtu_nonvacuous :
   length (tx (sample 300)) = 401%nat.
 Proof. repeat split; vm_compute; reflexivity. Qed.
 
+(* ---- lifted to a HISTORY of sends of the same bundle while the route MTU changes: every octet string
+        handed to the convergence layer at any send is within the MTU in force at THAT send
+        (send_history sec b mtus = map (send_request sec b) mtus: what a container carries over from
+        an earlier send -- route, sender -- has no influence; checked against the real agent by re-sending
+        the same container in harness/check_C05.py) *)
+Theorem C05_history_within_mtu : forall (b : bundle) (ms : list N),
+  frag_allowed b -> one_payload b ->
+  Forall (fun p : N * list bytes => Forall (fun o : bytes => Z.of_nat (length o) <= Z.of_N (fst p)) (snd p))
+         (combine ms (send_history no_sec b (map Some ms))).
+Proof. exact history_within_mtu. Qed.
+Print Assumptions C05_history_within_mtu.
+Example C05_history_within_mtu_nonvacuous :
+  map (map (@length N)) (send_history no_sec (sample 300) [None; Some 150%N; Some 105%N; Some 401%N])
+  = [[401]; [149; 149; 149; 149; 149; 89]; []; [401]]%nat.
+Proof. vm_compute. reflexivity. Qed.
+
 (* the same for the fragment list of the step itself *)
 Theorem C05_within_mtu_frags : forall (b : bundle) (m : N) (l : list bundle),
   one_payload b -> fragment_step b (Some m) = Frags l ->
